@@ -18,6 +18,7 @@ func runSession(x *Ctx, sc *wire.Scenario, plan wire.Plan, hooks sim.Hooks, scre
 		Hooks:      hooks,
 		WantScreen: screen,
 		WantEvents: x.Trace,
+		WantRaw:    x.Trace,
 	}
 	out := sim.Run(x.T, x.P, spec)
 	if x.Trace {
@@ -28,7 +29,15 @@ func runSession(x *Ctx, sc *wire.Scenario, plan wire.Plan, hooks sim.Hooks, scre
 
 func traceOf(out *sim.Outcome) any {
 	var waits []string
+	prev := 0
 	for _, w := range out.Waits {
+		if w.OutOff <= len(out.RawOut) && prev <= w.OutOff {
+			waits = append(waits, fmt.Sprintf("    out: %q", out.RawOut[prev:w.OutOff]))
+			prev = w.OutOff
+		}
+		if w.Screen != nil {
+			waits = append(waits, fmt.Sprintf("    screen: %q cursor=(%d,%d) wrap=%v report=(%d,%d)", w.Screen.Dump(), w.Screen.Row, w.Screen.Col, w.Screen.Wrap, w.ReportRow, w.ReportCol))
+		}
 		waits = append(waits, fmt.Sprintf("step=%d tokens=%d+%d kind=%s line=%q pos=%d mark=%d sel=%v[%d,%d) km=%s/%s kill=%q", w.Step, w.Tokens, w.Partial, w.Kind, w.Line, w.Pos, w.Mark, w.SelActive, w.SelB, w.SelE, w.Main, w.Local, w.Kill))
 	}
 	m := map[string]any{"end": out.End + " " + out.EndDetail, "returns": out.Returns, "waits": waits, "events": out.Events, "blocked": out.Blocked}
